@@ -220,7 +220,7 @@ PROPS["C12"] = dict(
         dict(name="known_F12", run="^TestKnownF12$", kind="plain", shards=1, guard={"quick": 300, "thorough": 300}),
         dict(name="error_path", run="^TestErrorPathStopsBackgroundWork$", kind="plain", shards=1, guard={"quick": 300, "thorough": 300}),
     ],
-    min_class_fraction={"parse_some_input_rejected": 0.3, "pipeline_goroutine_backed_stage": 0.02},
+    min_class_fraction={"parse_some_input_rejected": 0.3, "pipeline_goroutine_backed_stage": 0.005},
 )
 
 
